@@ -55,6 +55,7 @@ type Ctx struct {
 	Tier string
 	Seed int64
 	WantSample bool
+	taint string
 }
 
 func (c *Ctx) Violate(sig, what string, detail interface{}) {
@@ -102,6 +103,18 @@ func (c *Ctx) Check(ok bool, clause, sig, what string, detail interface{}) bool 
 		c.Violate(sig, what, detail)
 	}
 	return ok
+}
+
+// Taint marks the case as affected by a named, separately recorded defect
+// (see known_findings.jsonl): when the case ends, every violation signature
+// of the case is replaced by <property>/tainted/<name>, so that the listed
+// finding is recognised whatever clause it happened to trip.
+func (c *Ctx) Taint(name string) {
+	c.mu.Lock()
+	defer c.mu.Unlock()
+	if c.taint == "" {
+		c.taint = name
+	}
 }
 
 func (c *Ctx) Inconclusive(reason string) {
@@ -291,6 +304,21 @@ func main() {
 		}
 		ctx.mu.Lock()
 		ctx.res.WallMs = time.Since(t0).Milliseconds()
+		if ctx.taint != "" && len(ctx.res.Viol) > 0 {
+			byProp := map[string]bool{}
+			var nv []Violation
+			for _, v := range ctx.res.Viol {
+				p := v.Sig
+				if i := strings.Index(p, "/"); i > 0 {
+					p = p[:i]
+				}
+				if !byProp[p] {
+					byProp[p] = true
+					nv = append(nv, Violation{Sig: p + "/tainted/" + ctx.taint, What: "[" + ctx.taint + "] " + v.What, Detail: v.Detail})
+				}
+			}
+			ctx.res.Viol = nv
+		}
 		r := ctx.res
 		ctx.mu.Unlock()
 		emit(r)
